@@ -169,7 +169,7 @@ def _format_check_str(check_str):
     syntax (taken over from an operator's policy file) is written as a list
     rather than as the text of its Python representation.
     """
-    return jsonutils.dumps(check_str)
+    return jsonutils.dumps(check_str, ensure_ascii=False)
 
 
 def _format_rule_default_yaml(default, include_help=True, comment_rule=True,
@@ -586,7 +586,9 @@ def _upgrade_policies(policies, default_policies):
                 # One deprecated policy may have been split into several new
                 # ones; each of them takes over the operator's override.
                 policies.pop(old_name, None)
-                if old_policies[old_name] == 'rule:%s' % rule_default.name:
+                old_check = policy.RuleDefault(old_name,
+                                               old_policies[old_name]).check
+                if str(old_check) == 'rule:%s' % rule_default.name:
                     # Merely the alias from the sample file; it never
                     # overrode anything and must not refer to itself.
                     continue
